@@ -26,6 +26,8 @@ def build():
     C.ext("Logger.info", model=common.noop, trusted_reason="logging")
     # the composition of the game-side contracts (C06 P1-P4, re-checked as C20b) with the credits handlers, natively: one
     # credit and two start presses in the same instant admit ONE player (finite check, the history fixed in c3a53ba)
+    C.finite_checks.append(common.native_demo_check(
+        "c20_decimal_prices_truncated.py", "a game costs a full game price also for decimal currency values (price 0.60 with 0.10 / 0.50 coins; a 0.30 coin)"))
     C.finite_checks.append(common.native_script_check(
         "c20_tiers.py", "the pricing table built by _calculate_pricing_tiers (an assumed input of the contracts on "
                         "_add_credit_units) gives each tier, paid in full, exactly its credits and never lowers the balance; "
